@@ -8,6 +8,7 @@ import (
 	"strings"
 	"sync"
 	"testing"
+	"time"
 
 	logging "github.com/mdzio/go-logging"
 
@@ -35,6 +36,7 @@ func TestMain(m *testing.M) {
 	batch = out.EnvInt("VERIF_BATCH", 0)
 	nbatch = out.EnvInt("VERIF_NBATCH", 1)
 	debug.SetTraceback("all")
+	go deadlockWatchdog()
 	code := m.Run()
 	if code == 0 {
 		out.Done()
@@ -142,4 +144,72 @@ func hex(b []byte) string {
 		return fmt.Sprintf("%x...(%d bytes)", b[:max], len(b))
 	}
 	return fmt.Sprintf("%x", b)
+}
+
+// progress is bumped by out.Begin through caseCounter; the watchdog below runs
+// outside every synctest bubble, in real time.
+var watchdogOff int32
+
+// deadlockWatchdog turns "the whole child stopped making progress because
+// goroutines are parked on sync primitives" into a located violation instead of
+// a watchdog timeout: if the current case has not changed for a while and two
+// snapshots show every goroutine (but this one) parked with identical stacks,
+// no enabled action is left in the process.
+func deadlockWatchdog() {
+	last := int64(-1)
+	var since time.Time
+	for {
+		time.Sleep(500 * time.Millisecond)
+		cur := out.CaseCounter()
+		if cur != last {
+			last, since = cur, time.Now()
+			continue
+		}
+		if time.Since(since) < 20*time.Second {
+			continue
+		}
+		a := parkedSignature()
+		if a == "" {
+			continue
+		}
+		time.Sleep(400 * time.Millisecond)
+		if b := parkedSignature(); b == "" || a != b || out.CaseCounter() != cur {
+			continue
+		}
+		// a genuine process-wide deadlock
+		var stuck []*gInfo
+		me := goid()
+		for id, g := range snapshot() {
+			if id != me && g.hasLibFrame() {
+				stuck = append(stuck, g)
+			}
+		}
+		reportStuck("deadlock", stuck, map[string]interface{}{"note": "process-wide: every goroutine parked on a sync primitive or channel, no timers pending that could wake them"})
+		out.Note("deadlock watchdog: ending the child")
+		out.Done()
+		os.Exit(0)
+	}
+}
+
+// parkedSignature returns a digest of all goroutine stacks if every goroutine
+// except the caller is parked (not runnable, not in a syscall, not sleeping on a
+// real timer), else "".
+func parkedSignature() string {
+	me := goid()
+	var parts []string
+	for id, g := range snapshot() {
+		if id == me {
+			continue
+		}
+		st := g.state
+		if !parkedState(st) && st != "GC worker (idle)" && st != "finalizer wait" && st != "GC sweep wait" && st != "GC scavenge wait" && st != "force gc (idle)" && st != "cleanup wait" && st != "debug call" && !strings.HasPrefix(st, "GC ") && st != "trace reader (blocked)" {
+			if strings.Contains(g.stack, "os/signal.") || strings.Contains(g.stack, "runtime.ensureSigM") {
+				continue
+			}
+			return ""
+		}
+		parts = append(parts, fmt.Sprintf("%d:%s:%d", id, st, len(g.stack)))
+	}
+	sortStrings(parts)
+	return strings.Join(parts, "|")
 }
